@@ -1037,6 +1037,52 @@ fn parse_strategy() -> BoxedStrategy<Case> {
 impl Property for C18 {
     type Case = Case;
 
+    fn fuzz(&self) -> Option<FuzzSpec> {
+        Some(FuzzSpec { target: "c18", jobs: 8, runs: 1_000_000, max_len: 96, seeds: 300 })
+    }
+
+    /// byte 0 selects the parser (key / chord / key name) or, from 3 on, a registration
+    /// history: each following byte is a chord of 1-4 pool keys (2 bits length, 3x2 bits keys
+    /// from the first four pool keys) -- bit 7 of byte 0 makes every third chord an override map
+    fn case_from_bytes(&self, data: &[u8]) -> Option<Case> {
+        let (&k, rest) = data.split_first()?;
+        Some(match k % 4 {
+            0 => Case::Parse { target: Target::Key, s: String::from_utf8_lossy(rest).into_owned() },
+            1 => Case::Parse { target: Target::Chord, s: String::from_utf8_lossy(rest).into_owned() },
+            2 => Case::Parse { target: Target::Name, s: String::from_utf8_lossy(rest).into_owned() },
+            _ => {
+                let chord = |b: u8| -> Vec<K> {
+                    let len = (b & 3) as usize + 1;
+                    (0..len).map(|i| ((b >> (2 + 2 * (i % 3))) & 3) as K).collect()
+                };
+                let mut ops = Vec::new();
+                for (i, b) in rest.iter().take(24).enumerate() {
+                    if k & 0x80 != 0 && i % 3 == 2 {
+                        ops.push(Op::Override(vec![chord(*b), chord(b.rotate_left(3))]));
+                    } else {
+                        ops.push(Op::Register(chord(*b)));
+                    }
+                }
+                Case::Map { ops }
+            }
+        })
+    }
+
+    fn case_to_bytes(&self, case: &Case) -> Option<Vec<u8>> {
+        match case {
+            Case::Parse { target, s } => {
+                let mut out = vec![match target {
+                    Target::Key => 0u8,
+                    Target::Chord => 1,
+                    Target::Name => 2,
+                }];
+                out.extend_from_slice(s.as_bytes());
+                Some(out)
+            }
+            _ => None,
+        }
+    }
+
     fn id(&self) -> &'static str {
         "C18"
     }
